@@ -621,6 +621,15 @@ func (e *Engine) instrWritesLevel(ins ssa.Instruction, out map[string]int) {
 			h, _ := u.cellHeap(elem)
 			add(h, modFresh)
 		}
+	case *ssa.Next:
+		if rng, ok := t.Iter.(*ssa.Range); ok {
+			if mt, ok := rng.X.Type().Underlying().(*types.Map); ok {
+				_, _, ks, _ := u.mapHeaps(mt)
+				name := fmt.Sprintf("V$%s$%d", sanitize(rng.Parent().Name()), rng.Pos())
+				u.heap(name, arraySort(ks, SBool))
+				add(name, modAny)
+			}
+		}
 	case *ssa.MakeMap:
 		add(allocHeap, modFresh)
 		d, _, _, _ := u.mapHeaps(t.Type().Underlying().(*types.Map))
